@@ -34,7 +34,22 @@ def prepare(rep):
                                    % rep.prop)
     rep.coverage['trusted_base'] = list(vlib.TRUSTED_BASE)
     ctx.proof_broken = None
-    if bad:
+    import pin_statements
+    pins = pin_statements.differences(rep.prop)
+    rep.coverage['pinned_statements_unchanged'] = not pins
+    ctx.coqchk = None
+    if rep.tier == 'thorough' and pr['ok'] and not bad:
+        # independent re-check of the compiled property file and everything it depends on
+        ctx.coqchk = vlib.run_coqchk(rep.prop)
+        rep.coverage['coqchk'] = ctx.coqchk
+        rep.coverage['checker_cmd'] += ' && coqchk -o -silent Solstat.%s' % rep.prop
+    if pins:
+        ctx.proof_broken = 'pinned statement changed (tools/pin_statements.py): ' + '; '.join(pins[:5])
+        rep.coverage['discharged'] = 0
+    elif ctx.coqchk is not None and not ctx.coqchk['ok']:
+        ctx.proof_broken = 'coqchk does not accept props/%s.vo: %s' % (rep.prop, ctx.coqchk['summary'][:600])
+        rep.coverage['discharged'] = 0
+    elif bad:
         ctx.proof_broken = 'forbidden construct in the development: ' + '; '.join(bad[:5])
     elif not pr['ok']:
         ctx.proof_broken = 'props/%s.v does not check (rc=%s, unprinted=%s, axioms=%s)' % (
